@@ -237,4 +237,32 @@ def r4_classification(ctx):
         ctx.floor("R4", "text-writing Ok paths with a WriteResult", n, 3, config=cfg)
 
 
-RULES = [("R1", r1_writer), ("R2", r2_depth), ("R3", r3_serde), ("R4", r4_classification)]
+def r5_indent_flag_values(ctx):
+    """The serde serializer's `write_indent` flag says "an indent may precede the next thing written".  It is only ever
+    set to a constant or to allow_indent() of the WriteResult just obtained (whose value set is R3's {Element, Nothing});
+    any other predicate (e.g. !is_text(), true for SensitiveNothing) would let an indent follow text."""
+    for cfg, F in ctx.facts.items():
+        if "serialize" not in F.features:
+            ctx.ob("R5", "not-compiled", True, "serializer only with the `serialize` feature", config=cfg)
+            continue
+        n = 0
+        for b in F.bodies:
+            if not b.loc(b.j["span"]).startswith("src/se/") or is_derive(b) or "::tests" in b.path:
+                continue
+            if not any("p" in st and any(isinstance(e, dict) and e.get("n") == "write_indent" for e in st["p"][1]) for _, st in b.stmts()):
+                continue
+            seen = set()
+            for p in ctx.paths(b):
+                for e in p:
+                    if e[0] == "store" and ends_with_fields(e[2], "write_indent"):
+                        v = strip_wrappers(e[3])
+                        key = sym.show(v, 1)
+                        if key in seen:
+                            continue
+                        seen.add(key)
+                        n += 1
+                        ok = (v[0] == "c" and isinstance(v[2], bool)) or call_is(v, "WriteResult::allow_indent")
+                        ctx.ob("R5", "%s:write_indent=%s" % (sym.short(strip_generics(b.path)).split("::")[-1], key[:40]), ok, "write_indent is assigned a constant or allow_indent() of the last WriteResult, found %s" % sym.show(v, 2)[:80], loc=b.loc(e[4]), config=cfg)
+        ctx.floor("R5", "assignments to write_indent", n, 5, config=cfg)
+
+RULES = [("R1", r1_writer), ("R2", r2_depth), ("R3", r3_serde), ("R4", r4_classification), ("R5", r5_indent_flag_values)]
